@@ -29,12 +29,29 @@ def body_loop(src, rel, cls, fn, size_name):
 def gen(src, consts):
     g = body_loop(src, 'basic.py', 'Basic', '_get_content_body', 'body_size')
     b = body_loop(src, 'channel.py', 'Channel', '_build_message_body', 'body_size')
+    # the guard at the top of Channel._build_message: how many queued frames it needs before it pops any
+    bm = [st for st in strip_doc(src.func('channel.py', 'Channel', '_build_message').body) if not is_logging(st)]
+    need = 0
+    if bm and isinstance(bm[0], ast.If) and len(bm[0].body) == 1 and isinstance(bm[0].body[0], ast.Return):
+        t = ast.unparse(bm[0].test)
+        import re
+        m = re.fullmatch(r'len\(self\._inbound\) < (\d+)', t)
+        if m:
+            need = int(m.group(1))
+        elif t == 'not self._inbound':
+            need = 1
+        else:
+            m = re.fullmatch(r'len\(self\._inbound\) <= (\d+)', t)
+            if m:
+                need = int(m.group(1)) + 1
     return ('namespace Amqp.Gen.Loops\n'
             '/-- `Basic._get_content_body`: `while <this>:` -/\n'
             'def getBodyContinues (bodyLen size : Int) : Bool := decide %s\n'
             '/-- `Channel._build_message_body`: `while <this>:` -/\n'
             'def buildBodyContinues (bodyLen size : Int) : Bool := decide %s\n'
-            'end Amqp.Gen.Loops\n' % (g, b))
+            '/-- `Channel._build_message` does nothing unless at least this many frames are queued (`len(self._inbound) < n`) -/\n'
+            'def buildStartNeeds : Nat := %d\n'
+            'end Amqp.Gen.Loops\n' % (g, b, need))
 
 
 FILES = {'Loops.lean': gen}
